@@ -635,13 +635,18 @@ class Sealed:
     x: int = 0
 NSealed = typing.NewType("NSealed", Sealed)
 ASealed = typing.TypeAliasType("ASealed", Sealed)
+Mode = typing.Literal["r", "w"]
+ModeAlias = typing.TypeAliasType("ModeAlias", typing.Literal["r", "w"])
 """
 # (wrapper expression, base expression, intermediate wrappers that a caller may look up in between)
 DEEP_CHAINS = [("NA", "K", ["A"]), ("NN", "K", ["N"]), ("NNA", "K", ["NA", "A"]), ("AN", "K", ["N"]), ("AA", "K", ["A"]),
                ("ANA", "K", ["NA", "A"]), ("typing.Final[NA]", "K", ["NA", "A"]), ("typing.Final[AN]", "K", ["AN", "N"]),
                ("typing.ClassVar[NA]", "K", ["NA"]), ("NIA", "int", ["IA"]), ("typing.Final[NIA]", "int", ["NIA", "IA"]),
                ("Sealed", "Sealed", []), ("NSealed", "Sealed", []), ("ASealed", "Sealed", []), ("typing.Final[Sealed]", "Sealed", ["NSealed"]),
-               ("typing.ClassVar[ASealed]", "Sealed", ["ASealed"])]
+               ("typing.ClassVar[ASealed]", "Sealed", ["ASealed"]),
+               # a qualified LITERAL unwraps to the literal like any other qualified type
+               ("typing.ClassVar[typing.Literal['r', 'w']]", "Mode", []), ("typing.Final[typing.Literal['r', 'w']]", "Mode", []),
+               ("ModeAlias", "Mode", []), ("typing.ClassVar[ModeAlias]", "Mode", ["ModeAlias"]), ("typing.Final[ModeAlias]", "Mode", ["ModeAlias"])]
 
 
 def _deep_child(_job):
